@@ -91,8 +91,9 @@ def SNode.denote : SNode → List PNode
   | .elem name _ _ attrs _ kids _ _ _ => [.elem name.text (attrs.map SAttr.denote) (denoteList kids)]
   | .empty name _ _ attrs _ => [.elem name.text (attrs.map SAttr.denote) []]
   | .chars parts => if partsValue parts = [] then [] else [.text (partsValue parts)]
-  | .comment text _ => [.comment text.text]
-  | .pi target content _ => [.pi target.text (content.map (fun c => c.text))]
+  -- line ends are normalised in comments and processing instructions too (XML 1.0, 2.11)
+  | .comment text _ => [.comment (normalizeLineEnds text.text)]
+  | .pi target content _ => [.pi target.text (content.map (fun c => normalizeLineEnds c.text))]
 where
   denoteList : List SNode → List PNode
     | [] => []
@@ -149,14 +150,15 @@ def attrsWell (attrs : List SAttr) : Prop :=
 
 /-- A spelling is well formed: attribute values and text parts are well spelled, attribute names
     are pairwise different and none is `xmlns`, the end tag repeats the start tag's name, no two
-    character-data runs are neighbours. -/
+    character-data runs are neighbours, no processing-instruction target is `xml` (any letter case). -/
 def SNode.Well : SNode → Prop
   | .elem name _ _ attrs _ kids cname _ _ =>
     attrsWell attrs ∧ cname.text = name.text ∧ noAdjChars kids = true ∧ wellList kids
   | .empty _ _ _ attrs _ => attrsWell attrs
   | .chars parts => ∀ p ∈ parts, p.Well
   | .comment _ _ => True
-  | .pi _ _ _ => True
+  -- the target `xml` (any letter case) is reserved
+  | .pi target _ _ => isReservedPiTarget target.text = false
 where
   wellList : List SNode → Prop
     | [] => True
